@@ -3,7 +3,7 @@ CONSTANTS
   GroupIds = {"g1"}
   StreamSet = {"sa"}
   MaxParts = 1
-  Brokers = {"r1", "r2", "r3"}
+  Brokers = {"r1", "r2"}
   ConsumerSet = {"c1", "c2"}
   Coords = {"A", "X"}
   OpKinds = {"CreateStream", "ChangeLeader", "ShrinkISR", "ExpandISR"}
